@@ -79,7 +79,7 @@ def main():
   alog.set_verbosity(alog.ERROR)
   from ai_edge_quantizer import quantizer, model_validator
   from ai_edge_quantizer.utils import validation_utils
-  r = tlc.run("C18_validate", "Validate", dict(Names='{"a", "b", "c", "d"}', Fixes='{"inout"}'), invariants=["PartitionOK", "ReturnsForQuantizedPair"], workers=16, timeout=1800)
+  r = tlc.run("C18_validate", "Validate", dict(Names='{"a", "b", "c", "d"}', Fixes='{"inout"}'), invariants=["PartitionOK", "ReturnsForQuantizedPair", "FlatOK"], workers=16, timeout=1800)
   if r.error or r.rc not in (0, 12):
     chk.machinery("TLC failed: %s" % r.out[-800:])
   if r.violated:
@@ -166,10 +166,34 @@ def main():
         chk.violation("validate()/compare_model raised on %s pair: %s: %s" % (pair_kind, type(e).__name__, str(e)[:200]),
                       {"property": "C18", "scenario": scn, "codes": info["codes"], "pair": pair_kind, "metric": mname, "clause": "raises"})
         continue
+      # the result is read the ways a user reads it - per signature, flat, saved to a folder (twice) - and read per signature again
+      def groups_of(key):
+        sr = res.get_signature_comparison_result(key)
+        return {"gin": dict(sr.input_tensors), "gout": dict(sr.output_tensors), "gconst": dict(sr.constant_tensors), "ginter": dict(sr.intermediate_tensors)}
+      first_read = {sg["key"]: groups_of(sg["key"]) for sg in inp["sigs"]}
+      flat = res.get_all_tensor_results()
+      import shutil, tempfile
+      folder = tempfile.mkdtemp(prefix="c18_save_")
+      savedok = True
+      try:
+        for _ in range(2):
+          res.save(folder, "m")
+          saved = json.load(open(os.path.join(folder, "m_comparison_result.json")))
+          for sg in inp["sigs"]:
+            fr = first_read[sg["key"]]
+            sv = saved.get(sg["key"], {})
+            for gname, fld in (("gin", "input_tensors"), ("gout", "output_tensors"), ("gconst", "constant_tensors"), ("ginter", "intermediate_tensors")):
+              if sorted(sv.get(fld, {})) != sorted(fr[gname]):
+                savedok = False
+      except Exception as e:  # pylint: disable=broad-except
+        savedok = False
+      finally:
+        shutil.rmtree(folder, ignore_errors=True)
       for sg in inp["sigs"]:
         si = sg["sub"]
         sres = res.get_signature_comparison_result(sg["key"])
         groups = {"gin": sres.input_tensors, "gout": sres.output_tensors, "gconst": sres.constant_tensors, "ginter": sres.intermediate_tensors}
+        stable = {k: dict(v) for k, v in groups.items()} == first_read[sg["key"]]
         ref_names = [t["name"] for t in inp["subs"][si]["tensors"]]
         tgt_names = [t["name"] for t in tgt_proj["subs"][si]["tensors"]]
         consts = [t["name"] for t in inp["subs"][si]["tensors"] if inp["bufs"][t["buf"]]["len"] > 0]
@@ -195,7 +219,8 @@ def main():
         obs.append({"id": len(obs) + 1, "gin": sorted(groups["gin"]), "gout": sorted(groups["gout"]), "gconst": sorted(groups["gconst"]),
                     "ginter": sorted(groups["ginter"]), "ref": ref_names, "tgt": tgt_names,
                     "ins": [ref_names[t] for _, t in sg["ins"]], "outs": [ref_names[t] for _, t in sg["outs"]], "consts": consts,
-                    "valok": valok, "iszero": iszero, "self": pair_kind == "self"})
+                    "valok": valok, "iszero": iszero, "self": pair_kind == "self",
+                    "stable": bool(stable), "savedok": bool(savedok), "flat": sorted(flat)})
         meta.append(dict(scenario=scn, codes=info["codes"], pair=pair_kind, metric=mname, signature=sg["key"], names=names))
   # metric laws on integer vectors (non-negative, zero on equal arguments, MSE symmetric)
   nlaw = 0
@@ -223,7 +248,7 @@ def main():
     v = verdicts.get(o["id"])
     if v is None:
       continue
-    bad = [k for k in ("disjoint", "complete", "filed", "values", "selfzero") if not v[k]]
+    bad = [k for k in ("disjoint", "complete", "filed", "reads", "values", "selfzero") if not v[k]]
     if bad:
       detail = [n for n, ok in zip(m["names"], o["valok"]) if not ok][:5]
       chk.violation("%s false for the comparison of a model with its %s version (%s, signature %s) %s" % ("/".join(bad), m["pair"], m["metric"], m["signature"], detail),
